@@ -568,7 +568,7 @@ def _aliases(nodes):
         for n in ns:
             if n["k"] == "graph":
                 for st_ in n.get("renames", []):
-                    for inner, outer in st_["map"].items():
+                    for inner, outer in st_.get("map", {}).items():
                         alias.setdefault(outer, {outer}).add(inner)
                         alias.setdefault(inner, {inner}).add(outer)
                 visit(n["graph"]["nodes"])
